@@ -854,3 +854,81 @@ theorem simD_steps (mv : Moves) (hmv : mv.Lawful) (beta : Rat) (k : Nat) (g : Is
     rw [hi, hq]; exact this
 
 end Qmc
+
+/-! ### lock-step with heat-bath sweeps on both samplers -/
+
+namespace Qmc
+open GenericSampler
+
+/-- the heat-bath sweep pads the container to the cutoff first, like the Metropolis sweep
+(same `mutate_ps(0, cutoff, …)` entry point) -/
+def Moves.HeatPad (mv : Moves) : Prop :=
+  ∀ H c beta (w : World),
+    mv.heat H c beta { w with slots := growSlots w.slots c } = mv.heat H c beta w
+
+/-- conversion relation when heat-bath was switched on on the converted sampler as well -/
+def SimHB (g : IsingSampler) (q : GenericSampler) : Prop :=
+  q.state = g.state ∧ q.cutoff = g.cutoff ∧
+  growSlots q.slots q.cutoff = growSlots g.slots g.cutoff ∧
+  q.bonds = convertBonds g.model ∧ q.doLoopUpdates = false ∧ q.doHeatbath = true ∧
+  q.shouldDoClusterUpdate = true
+
+def PlainHB (g : IsingSampler) : Prop :=
+  g.model.hasField = false ∧ g.runRvb = false ∧ g.heatbath = true ∧
+  (∀ e ∈ g.model.edges, e.1.length = 2)
+
+theorem simHB_convert (g : IsingSampler) (hf : g.model.hasField = false) (hn : 0 < g.model.nvars) :
+    SimHB g ((convertResult g).setDoHeatbath true) := by
+  obtain ⟨s1, s2, s3, s4, s5, _, s7⟩ := sim_convert g hf hn
+  exact ⟨s1, s2, s3, s4, s5, rfl, s7⟩
+
+theorem simHB_step (mv : Moves) (hmv : mv.Lawful) (hheat : mv.HeatPad) (g : IsingSampler)
+    (q : GenericSampler) (hs : SimHB g q) (hp : PlainHB g) (beta : Rat) (rng : List Nat) :
+    SimHB (isingTimestep mv g beta rng).1 (genericTimestep mv q beta rng).1 ∧
+    PlainHB (isingTimestep mv g beta rng).1 ∧
+    (genericTimestep mv q beta rng).2 = (isingTimestep mv g beta rng).2 ∧
+    (genericTimestep mv q beta rng).1.state = (isingTimestep mv g beta rng).1.state ∧
+    (genericTimestep mv q beta rng).1.slots = (isingTimestep mv g beta rng).1.slots ∧
+    (genericTimestep mv q beta rng).1.cutoff = (isingTimestep mv g beta rng).1.cutoff := by
+  obtain ⟨s1, s2, s3, s4, s5, s6, s7⟩ := hs
+  obtain ⟨p1, p2, p3, p4⟩ := hp
+  have hham : q.ham = g.ham := by
+    unfold GenericSampler.ham IsingSampler.ham
+    rw [s4]; exact convert_ham_eq g.model p4
+  have hsweep : mv.heat q.ham q.cutoff beta { state := q.state, slots := q.slots, rng := rng }
+      = mv.heat g.ham g.cutoff beta { state := g.state, slots := g.slots, rng := rng } := by
+    have a := hheat q.ham q.cutoff beta { state := q.state, slots := q.slots, rng := rng }
+    have b := hheat g.ham g.cutoff beta { state := g.state, slots := g.slots, rng := rng }
+    rw [← a, ← b]
+    rw [s2] at s3
+    simp only [s3, s1, s2, hham]
+  unfold isingTimestep genericTimestep
+  simp only [p1, p2, p3, s5, s6, s7, Bool.false_eq_true, if_false, if_true, hsweep]
+  refine ⟨⟨?_, ?_, ?_, ?_, ?_, ?_, ?_⟩, ⟨?_, ?_, ?_, ?_⟩, ?_, ?_, ?_, ?_⟩
+  all_goals first
+    | rfl
+    | exact s4
+    | exact p1
+    | exact p4
+    | (simp only [s2, hmv.count_free, hmv.count_cluster]; done)
+    | (simpa [shouldDoClusterUpdate] using s7)
+
+theorem simHB_steps (mv : Moves) (hmv : mv.Lawful) (hheat : mv.HeatPad) (beta : Rat) (k : Nat)
+    (g : IsingSampler) (q : GenericSampler) (rng : List Nat) (hs : SimHB g q) (hp : PlainHB g) :
+    SimHB (isingSteps mv beta k (g, rng)).1 (genericSteps mv beta k (q, rng)).1 ∧
+    (genericSteps mv beta k (q, rng)).2 = (isingSteps mv beta k (g, rng)).2 := by
+  induction k generalizing g q rng with
+  | zero => exact ⟨hs, rfl⟩
+  | succ k ih =>
+    obtain ⟨h1, h2, h3, _⟩ := simHB_step mv hmv hheat g q hs hp beta rng
+    simp only [isingSteps, genericSteps]
+    have := ih (isingTimestep mv g beta rng).1 (genericTimestep mv q beta rng).1
+      (isingTimestep mv g beta rng).2 h1 h2
+    rw [← h3] at this
+    have hi : isingTimestep mv g beta rng
+        = ((isingTimestep mv g beta rng).1, (genericTimestep mv q beta rng).2) := by rw [h3]
+    have hq : genericTimestep mv q beta rng
+        = ((genericTimestep mv q beta rng).1, (genericTimestep mv q beta rng).2) := rfl
+    rw [hi, hq]; exact this
+
+end Qmc
